@@ -98,3 +98,168 @@ Theorem c07_lease_hypothesis_needed :
   w_idp_log (m_w (run_events c (init_state 3600) stalled_refresher_schedule)) = [IdpGrant 1 false; IdpGrant 1 true].
 Proof. exact stalled_refresher_double_presentation. Qed.
 Print Assumptions c07_lease_hypothesis_needed.
+
+(** * "At most one refresh grant succeeds per cooldown window" *)
+From WW Require Import Proofs.SessionTimeP Proofs.MachineModeP Proofs.MachineCooldownP.
+
+(** The decision to call the provider is taken by the re-read under the lock, on the record stored at that moment,
+    and only if that record's cooldown has expired (any fault, any schedule). *)
+Theorem c07_grant_decided_on_stored_record_off_cooldown : forall c w t f old tok start w' t' o old' cur tok' start',
+  t_phase t = PReread old tok start -> step c w t f = (w', t', o) -> t_phase t' = PIdp old' cur tok' start' ->
+  exists e, store_get w (cookie_key (t_cookie t)) = Some e /\
+            classify_entry (cookie_dek (t_cookie t)) e (w_clock w) = GOk cur /\
+            has_rt cur = true /\ on_cooldown (c_tp c) (sd_md cur) (w_clock w) = false /\
+            t_cancel t = false /\ f <> FStore.
+Proof. exact grant_decision. Qed.
+Print Assumptions c07_grant_decided_on_stored_record_off_cooldown.
+
+(** In every reachable state (ANY event list: faults, cancellation, crashes included) a thread at the provider call
+    holds a record whose cooldown has expired. *)
+Theorem c07_provider_call_only_off_cooldown : forall c tau es t th old cur tok st,
+  let s := run_events c (init_state tau) es in
+  alookup t (m_ts s) = Some th -> t_phase th = PIdp old cur tok st ->
+  cooldown_end (c_tp c) (sd_md cur) <= w_clock (m_w s).
+Proof. intros c tau es t th old cur tok st. exact (idp_cool_run c tau es t th old cur tok st). Qed.
+Print Assumptions c07_provider_call_only_off_cooldown.
+
+(** Under the lease hypothesis at most one thread per session key is past the lock acquisition (re-read, provider
+    call, store update, release): between a refresher's decision read and its store update no other thread for
+    that key passes from the re-read to the provider call. *)
+Corollary c07_one_refresher_per_key : forall c tau es t1 t2 th1 th2,
+  locking c -> lease_ok c (init_state tau) es ->
+  let s := run_events c (init_state tau) es in
+  alookup t1 (m_ts s) = Some th1 -> alookup t2 (m_ts s) = Some th2 ->
+  cookie_key (t_cookie th1) = cookie_key (t_cookie th2) ->
+  held_tok th1 <> None -> held_tok th2 <> None -> t1 = t2.
+Proof. exact one_refresher_per_key. Qed.
+Print Assumptions c07_one_refresher_per_key.
+
+(** The provider log carries no times. The accepted grants of a run with their instants are a ghost of the run:
+    [glog c s es] lists, oldest first, for every step of the run that appends [IdpGrant _ true] to the provider log,
+    the session key of the stepping thread ([g_key]), the clock value ([g_time]), the presented value ([g_rt]), the
+    record its decision re-read under the lock ([g_cur]) and the record it goes on to store ([g_new]).
+    The ghost is exactly the accepted part of the provider log (any event list). *)
+Theorem c07_grant_ghost_is_the_accepted_log : forall c es s,
+  filter ok_ev (w_idp_log (m_w (run_events c s es))) =
+  rev (map (fun g => IdpGrant (g_rt g) true) (glog c s es)) ++ filter ok_ev (w_idp_log (m_w s)).
+Proof. exact glog_matches_log. Qed.
+Print Assumptions c07_grant_ghost_is_the_accepted_log.
+
+(** Setting of [c07_refresh_token_presented_once]: locking configuration, atomic update, fault-free events (any
+    schedule, any number of threads, logins - re-logins included -, logouts, ticks, provider lifetime changes), lease
+    hypothesis.  For ANY two accepted grants g1 (earlier) and g2 (later) of one session key: the record g2 was
+    decided on was refreshed (or created) at or after the instant of g1, and its cooldown had expired at g2:
+        g_time g1 <= refreshed cur   and   cooldown_end cur <= g_time g2. *)
+Theorem c07_grants_separated_by_cooldown : forall c tau es,
+  locking c -> c_upd_atomic c = true -> Forall ff_event es -> lease_ok c (init_state tau) es ->
+  forall l1 g1 l2 g2 l3, glog c (init_state tau) es = l1 ++ g1 :: l2 ++ g2 :: l3 -> g_key g2 = g_key g1 ->
+    exists cur, g_cur g2 = Some cur /\ g_time g1 <= refreshed (sd_md cur) /\
+                cooldown_end (c_tp c) (sd_md cur) <= g_time g2.
+Proof. exact grants_cooldown. Qed.
+Print Assumptions c07_grants_separated_by_cooldown.
+
+(** In numbers: the distance is at least the cooldown length of that record; when its token lifetime exceeds twice
+    the minimum refresh interval, at least the minimum refresh interval (one minute). *)
+Theorem c07_grants_distance : forall c tau es,
+  locking c -> c_upd_atomic c = true -> Forall ff_event es -> lease_ok c (init_state tau) es ->
+  forall l1 g1 l2 g2 l3, glog c (init_state tau) es = l1 ++ g1 :: l2 ++ g2 :: l3 -> g_key g2 = g_key g1 ->
+    exists cur, g_cur g2 = Some cur /\
+      g_time g1 + (cooldown_end (c_tp c) (sd_md cur) - refreshed (sd_md cur)) <= g_time g2 /\
+      (min_interval (c_tp c) * 2 < token_lifetime (sd_md cur) -> g_time g1 + min_interval (c_tp c) <= g_time g2).
+Proof. exact grants_cooldown_distance. Qed.
+Print Assumptions c07_grants_distance.
+
+(** Consecutive grants of one key with no login under that key between them (the run is split at the two granting
+    steps e1, e2; no accepted grant for the key and no [ELogin] of the key in the stretch es2 between them): the record
+    the later grant was decided on IS the stored result of the earlier one, which was refreshed at the instant of the
+    earlier grant; the two are separated by at least the cooldown of the earlier one's result.
+    (If the earlier refresher never writes - it crashed between grant and update - the lease hypothesis fails once
+    its lock has expired; until then nobody else enters the critical section, so there is no later grant.) *)
+Theorem c07_consecutive_grants_exact : forall c tau es1 e1 es2 e2 es3 g1 g2,
+  locking c -> c_upd_atomic c = true ->
+  Forall ff_event (es1 ++ e1 :: es2 ++ e2 :: es3) -> lease_ok c (init_state tau) (es1 ++ e1 :: es2 ++ e2 :: es3) ->
+  let s1 := run_events c (init_state tau) es1 in
+  let s1' := fst (apply_event c s1 e1) in
+  let s2 := run_events c s1' es2 in
+  grant_of c s1 e1 = Some g1 -> grant_of c s2 e2 = Some g2 -> g_key g2 = g_key g1 ->
+  Forall (not_login_of (g_key g1)) es2 ->
+  (forall g, In g (glog c s1' es2) -> g_key g <> g_key g1) ->
+  exists n, g_new g1 = Some n /\ g_cur g2 = Some n /\ refreshed (sd_md n) = g_time g1 /\
+            cooldown_end (c_tp c) (sd_md n) <= g_time g2.
+Proof. exact consecutive_grants_exact. Qed.
+Print Assumptions c07_consecutive_grants_exact.
+
+(** Non-vacuity: one session, a refresh at 3601 s, a refresh request 30 s later answered from the store without a
+    grant (cooldown running), a refresh request 61 s after the first grant that is granted; every hypothesis holds;
+    exactly two accepted grants, 61 s >= 60 s apart. *)
+Example c07_cooldown_nonvacuous :
+  let c := cfg_redis true true true in
+  let s := run_events c (init_state 3600) cooldown_schedule in
+  locking c /\ c_upd_atomic c = true /\ Forall ff_event cooldown_schedule /\
+  lease_ok c (init_state 3600) cooldown_schedule /\
+  map g_summary (glog c (init_state 3600) cooldown_schedule) = [(1%N, 3601 * second, 1%N); (1%N, 3662 * second, 2%N)] /\
+  w_idp_log (m_w s) = [IdpGrant 2 true; IdpGrant 1 true] /\
+  min_interval (c_tp c) = 60 * second /\
+  (exists d tm, thread_done s 3 (OMeta 200 d tm) /\ sd_rt d = 2%N) /\
+  (exists d tm, thread_done s 2 (OMeta 200 d tm) /\ sd_rt d = 3%N).
+Proof. exact cooldown_nonvacuous. Qed.
+Print Assumptions c07_cooldown_nonvacuous.
+
+(** ... and the hypotheses of the exact form hold on that schedule split at its two grants; the second grant was
+    decided on the first one's result, whose cooldown ended at 3661 s. *)
+Example c07_consecutive_exact_nonvacuous :
+  let c := cfg_redis true true true in
+  let es1 := firstn 6 cooldown_schedule in
+  let es2 := firstn 10 (skipn 7 cooldown_schedule) in
+  let es3 := skipn 18 cooldown_schedule in
+  let s1 := run_events c (init_state 3600) es1 in
+  let s1' := fst (apply_event c s1 (ERun 1 FNone)) in
+  let s2 := run_events c s1' es2 in
+  cooldown_schedule = es1 ++ ERun 1 FNone :: es2 ++ ERun 2 FNone :: es3 /\
+  Forall (not_login_of 1%N) es2 /\ glog c s1' es2 = [] /\
+  exists g1 g2 n, grant_of c s1 (ERun 1 FNone) = Some g1 /\ grant_of c s2 (ERun 2 FNone) = Some g2 /\
+    g_key g1 = 1%N /\ g_key g2 = 1%N /\ g_time g1 = 3601 * second /\ g_time g2 = 3662 * second /\
+    g_new g1 = Some n /\ g_cur g2 = Some n /\ cooldown_end (c_tp c) (sd_md n) = 3661 * second.
+Proof. exact cooldown_exact_nonvacuous. Qed.
+Print Assumptions c07_consecutive_exact_nonvacuous.
+
+(** The exact form needs the re-login exclusion: provider lifetime drops to 20 s, the user logs in again under the
+    same session id, and the NEW session is refreshed 11 s after the old session's grant - decided on the new
+    session's record, not on the first grant's result, whose 60 s cooldown is still running.  All other hypotheses
+    hold, and so does the general form. *)
+Theorem c07_relogin_exclusion_needed :
+  let c := cfg_redis true true true in
+  locking c /\ c_upd_atomic c = true /\ Forall ff_event cooldown_relogin_schedule /\
+  lease_ok c (init_state 3600) cooldown_relogin_schedule /\
+  exists g1 g2 n, glog c (init_state 3600) cooldown_relogin_schedule = [g1; g2] /\
+    g_summary g1 = (1%N, 3601 * second, 1%N) /\ g_summary g2 = (1%N, 3612 * second, 3%N) /\
+    g_new g1 = Some n /\ g_cur g2 <> Some n /\ g_time g2 < cooldown_end (c_tp c) (sd_md n) /\
+    grant_sep c g1 g2.
+Proof. exact cooldown_relogin_needed. Qed.
+Print Assumptions c07_relogin_exclusion_needed.
+
+(** The lease hypothesis is needed (fault-free events, rotating provider, current code): a refresher stalls between
+    its accepted grant and its store update beyond the lock lifetime, the user logs in again under the same id, the
+    new session is refreshed (3661 s), then the stalled conditional write lands on the new entry (known re-login
+    overwrite) and puts back a record refreshed at 3601 s: the next request is granted a refresh at 3662 s, one
+    second after the previous accepted grant of that key. *)
+Theorem c07_cooldown_lease_hypothesis_needed :
+  let c := cfg_redis true true true in
+  locking c /\ c_upd_atomic c = true /\ Forall ff_event cooldown_stalled_schedule /\
+  ~ lease_ok c (init_state 3600) cooldown_stalled_schedule /\
+  exists g1 g2 g3, glog c (init_state 3600) cooldown_stalled_schedule = [g1; g2; g3] /\
+    g_summary g1 = (1%N, 3601 * second, 1%N) /\ g_summary g2 = (1%N, 3661 * second, 3%N) /\
+    g_summary g3 = (1%N, 3662 * second, 2%N) /\ ~ grant_sep c g2 g3.
+Proof. exact cooldown_lease_needed. Qed.
+Print Assumptions c07_cooldown_lease_hypothesis_needed.
+
+(** Outside the fault-free setting (provider that does not rotate refresh tokens): a refresher that outlives its
+    lease between grant and update lets the next one be granted a refresh with the same token 10 s later. *)
+Theorem c07_stalled_refresher_nonrotating_provider :
+  let c := cfg_redis true true true in
+  ~ lease_ok c (init_state 3600) cooldown_stalled_nonrotating_schedule /\
+  map g_summary (glog c (init_state 3600) cooldown_stalled_nonrotating_schedule) =
+    [(1%N, 3601 * second, 1%N); (1%N, 3611 * second, 1%N)] /\
+  w_idp_log (m_w (run_events c (init_state 3600) cooldown_stalled_nonrotating_schedule)) = [IdpGrant 1 true; IdpGrant 1 true].
+Proof. exact cooldown_stalled_nonrotating. Qed.
+Print Assumptions c07_stalled_refresher_nonrotating_provider.
